@@ -22,12 +22,19 @@ EXPLANATION = ("B1 identifier octet - decided by exhaustive literal evaluation: 
                "length octets and the content - the payload octets, resp. the encodings of the children in order -, read off the final buffer (a rope of "
                "segments with positions as formal sums of segment lengths, rules/rope.py; a length that is computed by a sizing pass instead of measured - the sum of SZ(child) - is accepted iff SZ(t) = octets appended for t, proved by induction over the tree with the identifier / length octet counts predicted vs written decided on the threshold partition: B4.encoder-sizing), so it does not matter whether the length is written before the content or a "
                "placeholder is patched / replaced / inserted afterwards; the length octets are write_length(L), constants or L's low octet with L formally the content length, "
-               "and are evaluated at every change point of the partition induced by the branch conditions on L and by write_length's own against the minimal definite form; B7 the TLV parser's children loop ends only when the content is used up, keeps every child and continues with its remainder, every error path is the failure of one of its primitives or the nesting bound, and what a child is given as its depth is the entry depth plus one (not a value that grows from sibling to sibling); B2m/B5 the two arithmetic functions - "
-               "write_length and the INTEGER/ENUMERATED content encoder - are functions of one integer whose every branch condition is a "
-               "comparison of the (possibly complemented) value shifted right by a constant with a constant (checked); such conditions "
+               "and are evaluated at every change point of the partition induced by the branch conditions on L and by write_length's own against the minimal definite form; B7 the TLV parser's children loop ends only when the content is used up, keeps every child and continues with its remainder, every error path is the failure of one of its primitives or the nesting bound, and what a child is given as its depth is the entry depth plus one (not a value that grows from sibling to sibling); "
+               "and, by exact literal evaluation of the public TLV parser on the encodings of small trees (constructed elements with 0..4 children: an empty constructed element of every class alone, nested, "
+               "first / middle / last among siblings; a first child that looks like an end-of-contents marker; every length in the minimal and in zero-padded long forms; trailing octets that look like an element), "
+               "the answer is Ok((the trailer, the tree an independent decoder written in the rule reads)); B2m the length writer is a function of one integer whose every branch condition is a "
+               "comparison of the value shifted right by a constant with a constant (checked); such conditions "
                "can change only at finitely many change points, so the path taken and the octets emitted are decided exactly by "
-               "evaluating the enumerated paths' conditions and outputs at every change point and its neighbours (lengths over 0..2^64-1, "
-               "integers over all of i64) against the minimal definite length form and the shortest two's-complement form. Not decided: "
+               "evaluating the function on the literal length at every change point and its neighbours (0..2^64-1) against the minimal definite length form; "
+               "B5 the INTEGER / ENUMERATED contents writer is decided as a function, whatever its shape (shift-and-count loop, to_be_bytes with the leading sign octets skipped by take_while / position / "
+               "leading_zeros arithmetic, a shift-and-mask loop): it is interpreted exactly on each value of a finite partition of i64 - for every number of significant octets 1..8 under both signs the product of "
+               "top octet {00 01 7F 80 FE FF, its own constants} x lower octets {all 00 / FF / 5A, one 00 / FF / 01 / FE at each position}, the boundaries +-2^(8k-1), +-2^(8k) and every power of two with their "
+               "neighbours, the change points of its own threshold comparisons and its own constants, 0, +-1, i64::MIN / MAX - and the payload it returns must be the shortest two's-complement octets (X.690 8.3) "
+               "computed in the rule; that it tells values apart only by threshold comparisons and by looking at the representation (octets, masks, sign, bit counts), which is what the partition is the "
+               "product of, is checked on its symbolic paths (B5.partition-covers-conditions). Not decided: "
                "round-trip equality of whole trees taken whole.")
 TRUSTED = ['nom bits/bytes primitives', 'to_be_bytes']
 UNDECIDED = ['round-trip equality of arbitrary trees taken whole (its necessary conditions B1-B5 are decided)']
@@ -518,13 +525,17 @@ def check_tlv_literal(ctx, f, R):
             assert ber_ref_decode(enc) == (t, b'')          # (the reference decoder and encoder are inverses on the trees used here)
             for tr in (trailers if fm == 'min' else trailers[:1]):
                 got[(ti, fm, tr)] = (read(enc + tr), enc + tr)
-    bad = {'empty': [], 'children': [], 'length': [], 'trailer': []}
+    bad = {'empty': [], 'children': [], 'length': [], 'trailer': [], 'identifier': []}
+    def shape(t):
+        return bytes(t[2]) if isinstance(t[2], bytes) else [shape(c) for c in t[2]]
     for (ti, fm, tr), (g, inp) in sorted(got.items(), key=lambda kv: (kv[0][0], str(kv[0][1]), kv[0][2])):
         t = trees[ti]
         if g == ('ok', tr, t):
             continue
         if got[(ti, 'min', b'')][0] != ('ok', b'', t):
-            kind = 'empty' if has_empty_constructed(t) else 'children'
+            g0 = got[(ti, 'min', b'')][0]
+            # (the right nesting and payloads under a wrong class / number: the identifier octet is misread - B1's matter -, not the children loop)
+            kind = 'identifier' if g0[0] == 'ok' and g0[1] == b'' and shape(g0[2]) == shape(t) else 'empty' if has_empty_constructed(t) else 'children'
             if (fm, tr) != ('min', b''):
                 continue          # (reported once, on the plain encoding)
         else:
@@ -541,6 +552,10 @@ def check_tlv_literal(ctx, f, R):
     ctx.add(R + '.valid-input-parses-to-reference-tree', 'children', here, not w,
             'every valid definite-length input parses to the tree an independent decoder produces (the public TLV parser interpreted exactly on %d literal encodings of constructed '
             'elements with 1..4 children; wrong on %d trees): %s' % (n, len(w), '; '.join(w[:3])))
+    w = bad['identifier']
+    ctx.add(R + '.valid-input-parses-to-reference-tree', 'class and number', here, not w,
+            'every element of the tree carries the class and tag number of its identifier octet (interpreted exactly on %d literal encodings; nesting and payloads right, class or number '
+            'wrong on %d trees): %s' % (n, len(w), '; '.join(w[:3])))
     w = bad['length']
     ctx.add(R + '.valid-input-parses-to-reference-tree', 'non-minimal length octets', here, not w,
             'a valid definite-length input whose lengths are written in a zero-padded long form (81 nn, 82 00 nn, 84 00 00 00 nn) parses to the same tree as its minimal encoding '
@@ -720,9 +735,9 @@ REPR_CALLS = ('to_be_bytes', 'to_le_bytes', 'to_ne_bytes', 'leading_zeros', 'lea
 
 def through_representation(t, var):
     """Every occurrence of the integer variable in the term t is inside (i) a comparison of the variable - complemented, negated,
-    converted, shifted right by a constant - with a constant, or (ii) a call of one of core's functions that hand out the
-    two's-complement representation (its octets, its sign, counts of its leading / trailing / set bits) on the variable -
-    complemented, converted, shifted by a constant.  What such a term can tell about the value is what the octets, the sign and
+    converted, shifted by a constant, masked with a constant - with a constant, (ii) such a shifted / masked form itself (an
+    octet or a bit field of the representation), or (iii) a call of one of core's functions that hand out the two's-complement
+    representation (its octets, its sign, counts of its leading / trailing / set bits) on the variable in such a form.  What such a term can tell about the value is what the octets, the sign and
     the bit counts tell."""
     def plain(x):
         while True:
@@ -730,8 +745,10 @@ def through_representation(t, var):
                 return True
             if x[0] in ('cast', 'bitnot', 'neg'):
                 x = x[1]; continue
-            if x[0] == 'bin' and x[1] in ('Shr', 'Shl') and x[3][0] == 'lit':
-                x = x[2]; continue
+            if x[0] == 'bin' and x[1] in ('Shr', 'Shl', 'BitAnd', 'BitOr', 'BitXor') and x[3][0] == 'lit':
+                x = x[2]; continue          # (a shift by a constant, a mask: bits of the representation)
+            if x[0] == 'bin' and x[1] in ('BitAnd', 'BitOr', 'BitXor') and x[2][0] == 'lit':
+                x = x[3]; continue
             return False
     def rec(x):
         if not isinstance(x, tuple) or not x or not thresholds.mentions(x, var):
@@ -739,6 +756,10 @@ def through_representation(t, var):
         if x == var:
             return False
         if x[0] == 'bin' and x[1] in thresholds.CMP and thresholds.atom_ok(x, var):
+            return True
+        if x[0] == 'bin' and x[1] in thresholds.CMP and ((plain(x[2]) and x[3][0] == 'lit') or (plain(x[3]) and x[2][0] == 'lit')):
+            return True
+        if x[0] in ('cast', 'bin') and plain(x):
             return True
         if x[0] == 'call' and isinstance(x[1], str) and x[1].startswith('core::num::<impl ') and x[1].rsplit('::', 1)[-1] in REPR_CALLS and len(x[2]) == 1 and plain(x[2][0]):
             return True
@@ -800,16 +821,30 @@ def check_integer_writer(ctx, f, len8):
         ctx.fail('anchor-missing', 'value parameter of the INTEGER writer', here, 'the INTEGER / ENUMERATED writer must take exactly one i64 (the value)')
         return
     ib, INNER = ints[0][0], ('param', ints[0][1]['name'])
-    iouts = [o for o in absx.Interp(f, IE, unroll=10, summaries=[len8]).run() if o.kind in ('val', 'ret')]
+    # the symbolic paths, for the conditions they branch on (every outcome counts, finished or not); a loop that forks on the symbolic
+    # value in every iteration is unrolled less deep when the paths get too many - the same conditions come back in every iteration
+    iouts = None
+    for depth in (10, 6, 4, 3, 2, 1):
+        try:
+            iouts = absx.Interp(f, IE, unroll=depth, summaries=[len8]).run()
+            break
+        except absx.TooManyPaths:
+            continue
+    if iouts is None:
+        ctx.fail('B5.partition-covers-conditions', 'i_e_into_structure', here, 'the paths of the INTEGER writer could not be enumerated even with its loops run once: what it branches on is not known')
+        return
     atoms = [sem.strip_site(a) for o in iouts for a, t in o.st.pc if thresholds.mentions(a, INNER)]
     thr = [a for a in atoms if thresholds.atom_ok(a, INNER)]
     other = [absx.fmt(a) for a in atoms if not thresholds.atom_ok(a, INNER) and not through_representation(a, INNER)]
     ctx.add('B5.partition-covers-conditions', 'i_e_into_structure', here, not other,
             'the INTEGER writer tells values apart by something that is neither a comparison of (+-value >> k) with a constant nor a look at the two\'s-complement representation '
             '(octets, sign, bit counts): %s - the finite partition its octets are decided on does not cover that' % sorted(set(other))[:3])
-    consts = {n_['v'] for n_, c_ in walk(IE.root) if n_['k'] == 'Lit' and isinstance(n_.get('v'), int) and not isinstance(n_.get('v'), bool) and 0 <= n_['v'] <= 255}
+    # the writer's own constants: as octet values of the partition and (a mask, a bound written out) as values, with their neighbours
+    lits = {n_['v'] for n_, c_ in walk(IE.root) if n_['k'] == 'Lit' and isinstance(n_.get('v'), int) and not isinstance(n_.get('v'), bool) and 0 <= n_['v'] < 2 ** 64}
+    consts = {c for c in lits if c <= 255} | {x for c in lits if c > 255 for x in c.to_bytes(8, 'big')}
     LO, HI = -2 ** 63, 2 ** 63 - 1
-    pts = thresholds.change_points(thr, INNER, LO, HI, extra=integer_partition(consts))
+    own = [v for c in lits for x in (c - 1, c, c + 1) for v in (x, -x, ~x)]
+    pts = thresholds.change_points(thr, INNER, LO, HI, extra=integer_partition(consts) + own)
     wrong, n_panic = [], 0
     for v in pts:
         I5 = absx.Interp(f, IE, unroll=70, combinators=True)
@@ -831,7 +866,7 @@ def check_integer_writer(ctx, f, len8):
             'interpreted exactly on each of %d literal values (every octet count 1..8 under both signs: boundaries, 0x00 / 0xFF octets below the top octet, powers of two; the writer\'s own change points): '
             'for %d of them the contents octets are not the shortest two\'s-complement form - an independent decoder reads another number - at (value, emitted, X.690 8.3): %s'
             % (len(pts), len(wrong), ['(%d, %s, %s)' % w for w in wrong[:6]]))
-    ctx.floor('B5', 'literal values the INTEGER writer was interpreted on', len(pts), 1500)
+    ctx.floor('B5', 'literal values the INTEGER writer was interpreted on', len(pts), 1982)          # (the partition without any constant of the writer's own)
 
 LVAR = ('var', 'L')
 
